@@ -68,15 +68,19 @@ class Model:
     def masks(self, w):
         if w is None:
             return np.ones(len(self.time), bool), np.ones(len(self.lat), bool)
+        # the grid stores single precision; a bound as the caller typed it
+        # (52.38) denotes the sample it rounds to
+        f = np.float32
+        t32, la32, lo32 = f(self.time), f(self.lat), f(self.lon)
         if w["time_min"] == w["time_max"]:
             tm = np.ones(len(self.time), bool)
         else:
-            tm = (self.time >= w["time_min"]) & (self.time <= w["time_max"])
+            tm = (t32 >= f(w["time_min"])) & (t32 <= f(w["time_max"]))
         if w["lat_min"] == w["lat_max"] and w["lon_min"] == w["lon_max"]:
             sm = np.ones(len(self.lat), bool)
         else:
-            sm = ((self.lat >= w["lat_min"]) & (self.lat <= w["lat_max"]) &
-                  (self.lon >= w["lon_min"]) & (self.lon <= w["lon_max"]))
+            sm = ((la32 >= f(w["lat_min"])) & (la32 <= f(w["lat_max"])) &
+                  (lo32 >= f(w["lon_min"])) & (lo32 <= f(w["lon_max"])))
         return tm, sm
 
     def view(self):
@@ -127,6 +131,7 @@ class C13(Machine):
                    "regular_grid", "loaded_from_file",
                    "view_edited_before_window_change",
                    "coordinates_not_float32_exact",
+                   "grid_through_text_files",
                    "non_float64_observable")
     real_vs_stub = {"real": ["Data, ClimateData, GeoGrid (constructors, "
                              "Load and its NetCDF import code, set_window, "
@@ -177,7 +182,8 @@ class C13(Machine):
         # list, with or without a level axis, latitudes in any order)
         cfg["dtype"] = a.choice(("float64",) * 5 + ("float32", "int64",
                                                      "int16", "uint8"))
-        cfg["source"] = a.choice(("arrays", "arrays", "arrays", "file"))
+        cfg["source"] = a.choice(("arrays", "arrays", "arrays", "file",
+                                  "grid_txt"))
         cfg["file"] = {"type": a.choice(("NetCDF", "NetCDF", "iNetCDF")),
                        "levels": a.choice((0, 0, 2, 3)),
                        "level": a.choice((None, 0, 1)),
@@ -223,13 +229,23 @@ class C13(Machine):
         return w
 
     @staticmethod
-    def _resolve(w, time, lat, lon, R):
+    def _resolve(w, time, lat, lon, R, typed=None):
+        """typed: the coordinates as the caller wrote them (double
+        precision), used for bounds that sit on a sample."""
+        typed = typed or (time, lat, lon)
+        tval = {id(time): typed[0], id(lat): typed[1], id(lon): typed[2]}
+
         def rng(ax, vals, wide=False):
             # offsets of +-1/8 on wide axes, +-2**-13 on a dense network
             span = float(np.max(vals) - np.min(vals))
             u = 1.0 if span > 0.5 or len(vals) < 2 else 2.0 ** -10
-            a = vals[ax["i"] % len(vals)] + ax["di"] * u
-            b = vals[ax["j"] % len(vals)] + ax["dj"] * u
+            tv = tval[id(vals)]
+            # on a sample: the value as typed, otherwise an offset from the
+            # stored value
+            a = float(tv[ax["i"] % len(vals)]) if ax["di"] == 0.0 else \
+                vals[ax["i"] % len(vals)] + ax["di"] * u
+            b = float(tv[ax["j"] % len(vals)]) if ax["dj"] == 0.0 else \
+                vals[ax["j"] % len(vals)] + ax["dj"] * u
             lo, hi = (a, b) if a <= b else (b, a)
             if wide:
                 lo, hi = min(lo, float(np.median(vals)) - 40 * u), \
@@ -239,14 +255,15 @@ class C13(Machine):
             # a bound is either exactly a stored sample or well away from
             # every sample (decimal coordinates can put "median - 40" within
             # single-precision rounding of a station)
+            def near(b):
+                return [v for v in vals if 0 < abs(v - b) < 1e-3 * u
+                        and np.float32(v) != np.float32(b)]
             for _ in range(4):
-                near = [v for v in vals if 0 < abs(v - lo) < 1e-3 * u]
-                if not near:
+                if not near(lo):
                     break
                 lo -= 0.03125 * u
             for _ in range(4):
-                near = [v for v in vals if 0 < abs(v - hi) < 1e-3 * u]
-                if not near:
+                if not near(hi):
                     break
                 hi += 0.03125 * u
             if ax["di"] == 0.0 or ax["dj"] == 0.0:
@@ -309,6 +326,24 @@ class C13(Machine):
         self.tol = (2e-5, 2e-5) if dt == "float32" else (1e-10, 1e-12)
         grid = GeoGrid(time_seq=time.copy(), lat_seq=lat.copy(),
                        lon_seq=lon.copy(), silence_level=2)
+        if src == "grid_txt":
+            # the grid went through its text files before the data object
+            # was built
+            import os
+            import shutil
+            base = os.path.join(os.environ.get(
+                "VERIF_SCRATCH", "/var/tmp/pyunicorn-verif"),
+                f"run-{os.getpid()}-c13")
+            shutil.rmtree(base, ignore_errors=True)
+            os.makedirs(base)
+            try:
+                grid.save_txt(os.path.join(base, "grid"))
+                grid = GeoGrid.LoadTXT(os.path.join(base, "grid"))
+                grid.silence_level = 2
+            finally:
+                shutil.rmtree(base, ignore_errors=True)
+            R.probe("grid_through_text_files")
+            src = "arrays"
         cls = cfg["class"]
         model = Model(X.astype(float), time.astype(np.float32).astype(float),
                       lat.astype(np.float32).astype(float),
@@ -319,7 +354,7 @@ class C13(Machine):
         held = {}                  # the caller's own window dictionary
         if cfg["init_window"]:
             w0 = self._resolve(cfg["window0"], model.time, model.lat,
-                               model.lon, R)
+                               model.lon, R, (time, lat, lon))
             tm, sm = model.masks(w0)
             if not tm.any() or not sm.any():
                 w0 = None
@@ -379,7 +414,7 @@ class C13(Machine):
                     R.probe("view_edited_before_window_change")
             if k == "set_window":
                 w = self._resolve(op["w"], model.time, model.lat, model.lon,
-                                  R)
+                                  R, (time, lat, lon))
                 tm, sm = model.masks(w)
                 if op.get("alias"):
                     held.clear()
